@@ -21,20 +21,30 @@ def key(v, ev):
     return str(pred)
 
 
-def gen():
-    return vlib.generate(SPEC, "MC_Palette", "Gen_Palette.cfg", os.path.join(vlib.GEN, "palette.ndjson"))
+def gen(thorough=False):
+    if thorough:
+        cfg = "Gen_Palette_deep.cfg"
+        src = open(os.path.join(ROOT, SPEC, "Gen_Palette.cfg")).read().replace("MaxOps = 4", "MaxOps = 6").replace("MaxLen = 3", "MaxLen = 4")
+        open(os.path.join(ROOT, SPEC, cfg), "w").write(src)
+        return vlib.generate(SPEC, "MC_Palette", cfg, os.path.join(vlib.GEN, "palette_deep.ndjson"), timeout=2400), os.path.join(vlib.GEN, "palette_deep.ndjson")
+    return vlib.generate(SPEC, "MC_Palette", "Gen_Palette.cfg", os.path.join(vlib.GEN, "palette.ndjson")), os.path.join(vlib.GEN, "palette.ndjson")
 
 
 def run():
     c = Check("C16")
     thorough = c.tier == "thorough"
-    c.mc(SPEC, "MC_Palette", "MC_Palette.cfg", workers=4)
-    g = gen()
+    if thorough:
+        src = open(os.path.join(ROOT, SPEC, "MC_Palette.cfg")).read().replace("MaxOps = 5", "MaxOps = 7").replace("MaxLen = 4", "MaxLen = 5")
+        open(os.path.join(ROOT, SPEC, "MC_Palette_deep.cfg"), "w").write(src)
+        c.mc(SPEC, "MC_Palette", "MC_Palette_deep.cfg", workers=8, timeout=3000, xmx="16g")
+    else:
+        c.mc(SPEC, "MC_Palette", "MC_Palette.cfg", workers=4)
+    g, gpath = gen(thorough)
     trace = os.path.join(c.workdir, "trace.ndjson")
-    vlib.drive(["c16", "--out", trace, "--seed", c.seed, "--tier", c.tier, "--gen", os.path.join(vlib.GEN, "palette.ndjson")])
+    vlib.drive(["c16", "--out", trace, "--seed", c.seed, "--tier", c.tier, "--gen", gpath], timeout=3000)
     # split into shards at reset boundaries for parallel validation
     shards = split_at_resets(trace, 6 if thorough else 4)
-    c.validate(SPEC, "Trace_Palette", "Trace_Palette.cfg", shards, key, procs=6)
+    c.validate(SPEC, "Trace_Palette", "Trace_Palette.cfg", shards, key, procs=6, timeout=3000)
     c.sample_from(shards[0], 3)
     c.extra["tlc_generated_behaviours"] = g["n"]
     c.extra["distinct_nontrivial"] = sum(int(r.get("r4", 0)) + int(r.get("r5", 0)) + int(r.get("r6", 0)) + int(r.get("r7", 0)) for r in c.reports)
